@@ -2,6 +2,7 @@ import Aiortc.Model.Sctp.Wire
 import Aiortc.Lemmas.SctpWire
 import Aiortc.Lemmas.SctpBurst
 import Aiortc.Lemmas.SctpTotal
+import Aiortc.Lemmas.C08.Checksum
 /-!
 # C08 — SCTP packets round-trip exactly and corrupted packets are rejected by checksum
 
@@ -11,7 +12,9 @@ Model: `Model/Sctp/Wire.lean` (codec, fixed behaviour = after `fixes/C08-*.patch
   bounds of the property text, `decode_encode_params`, `reconfig_roundtrip`.
 * Part 2 (bursts): `crc_burst_partial` (burst entirely outside or entirely inside the checksum field),
   `C08_full` / `C08_full_false` (a straddling burst is accepted — known finding C08-crc-straddle),
-  `crc_burst_four_bytes` (numbering-independent corollary).
+  `crc_burst_four_bytes` (numbering-independent corollary); `checksum_field_exact`, `built_checksum_exact`: the
+  checksum field an accepted / built packet carries is the ONLY 4-byte value accepted in its place (not its
+  byte-reversed form, not the big-endian pack of the CRC, not another algorithm's checksum, not zero).
 * Pinned-code defects reproduced on the `fixed = false` model, and their absence after the fix.
 -/
 namespace Aiortc.Props.C08
@@ -267,6 +270,65 @@ theorem crc_burst_four_bytes (d e : Bytes) (i : Nat) (hd : IsBytes d) (he : IsBy
 
 example : IsBurst [0, 0, 0, 0, 0, 0, 0, 0, 0, 0, 0, 0, 1, 0, 0, 0] 96 1 :=
   ⟨by decide, by decide, inWindow_of_bounded _ _ _ (by decide +kernel), ⟨96, by decide +kernel⟩⟩
+
+/-! ### the checksum field is exact (round 3)
+
+Every replacement of the 4 checksum bytes is a burst of ≤ 32 bits inside bits 64..95, so `crc_burst_partial` already
+rejects it; the statements below say the same in terms of the FIELD VALUE, which is what a "lenient" verification
+(accept the CRC in either byte order, accept the Adler-32 of RFC 2960, accept zero as "not computed" …) gives up. -/
+
+/-- An accepted packet with its checksum field replaced by ANY other 4 bytes is rejected. -/
+theorem checksum_field_exact (d v : Bytes) (hd : IsBytes d) (hacc : checksumOk d = true)
+    (hv : IsBytes v) (hl : v.length = 4) (hne : v ≠ checksumField d) :
+    parsePacket (withChecksum d v) = .valueError :=
+  parsePacketG_of_checksum_false true _
+    (checksumOk_withChecksum d v (isBytes_checksumField d hd) hacc hv hl hne)
+
+/-- … so among the packets that agree with an accepted one outside bytes 8..11 exactly one is accepted. -/
+theorem checksum_field_unique (d v : Bytes) (hd : IsBytes d) (hacc : (parsePacket d).isOk = true)
+    (hv : IsBytes v) (hl : v.length = 4) :
+    (parsePacket (withChecksum d v)).isOk = true ↔ v = checksumField d :=
+  checksum_field_unique_aux d v (isBytes_checksumField d hd) (checksumOk_of_accepted d hacc) hacc hv hl
+
+/-- The byte-reversed checksum (the CRC packed in the other byte order) is rejected unless it is a palindrome,
+in which case the packet is unchanged. -/
+theorem checksum_byte_reversed_rejected (d : Bytes) (hd : IsBytes d) (hacc : checksumOk d = true)
+    (hne : (checksumField d).reverse ≠ checksumField d) :
+    parsePacket (withChecksum d (checksumField d).reverse) = .valueError := by
+  have hlen : (checksumField d).length = 4 := by
+    have := length_of_checksumOk d hacc
+    simp [checksumField]; omega
+  refine checksum_field_exact d _ hd hacc ?_ (by simpa using hlen) hne
+  intro b hb
+  exact isBytes_checksumField d hd b (List.mem_reverse.mp hb)
+
+/-- For every packet the library can build: with the header and chunk as built, the ONLY checksum bytes the parser
+accepts are the little-endian pack of the CRC-32C of the packet with a zeroed field — in particular not the
+big-endian pack `u32be crc` (unless the two coincide). -/
+theorem built_checksum_exact (sp dp tag : Nat) (c : Chunk)
+    (hsp : sp < 65536) (hdp : dp < 65536) (htag : tag < 4294967296) (hc : c.inRange = true)
+    (v : Bytes) (hv : IsBytes v) (hl : v.length = 4) :
+    let crc := crc32c (u16be sp ++ (u16be dp ++ (u32be tag ++ ([0, 0, 0, 0] ++ c.bytes))))
+    (parsePacket (u16be sp ++ (u16be dp ++ (u32be tag ++ (v ++ c.bytes))))).isOk = true ↔ v = u32le crc := by
+  intro crc
+  have hpk : parsePacket (serializePacketRaw sp dp tag c) = .ok (sp, dp, tag, [c]) :=
+    parsePacketG_serialize true sp dp tag c (by simp [headerInRange, hsp, hdp, htag]) hc
+  have e2 : checksumField (serializePacketRaw sp dp tag c) = u32le crc := by
+    simp [checksumField, serializePacketRaw, u16be, u32be, u32le, crc]
+  have hf : IsBytes (checksumField (serializePacketRaw sp dp tag c)) := by
+    rw [e2]
+    intro b hb
+    simp only [u32le, List.mem_cons, List.not_mem_nil, or_false] at hb
+    rcases hb with h | h | h | h <;> subst h <;> omega
+  have key := checksum_field_unique_aux (serializePacketRaw sp dp tag c) v hf (checksumOk_serialize sp dp tag c) (by rw [hpk]; rfl) hv hl
+  have e1 : withChecksum (serializePacketRaw sp dp tag c) v = u16be sp ++ (u16be dp ++ (u32be tag ++ (v ++ c.bytes))) := by
+    simp [withChecksum, serializePacketRaw, u16be, u32be, u32le]
+  rw [e1, e2] at key
+  exact key
+
+example : checksumOk witnessD = true ∧ (checksumField witnessD).reverse ≠ checksumField witnessD ∧
+    parsePacket (withChecksum witnessD (checksumField witnessD).reverse) = .valueError := by
+  refine ⟨by decide +kernel, by decide, by decide +kernel⟩
 
 /-! ## pinned-code defects (reproduced on the `fixed = false` model) and their fixes -/
 
